@@ -57,8 +57,16 @@ prop("C10", True,
      "Geometry side: (R3) in all eight Transform methods a member result returned with an error is never asserted/indexed/returned-with-nil before the error is tested; (R4) nil transformer returns the receiver, otherwise a fresh value of the receiver's shape filled by out[i]=t(in[i]) over the full range with X/Y passed and stored in order, the receiver never written, *Bounds becomes the 4-corner ring in ring order. Projection side (R1/R2) see level_note.",
      "Not decided: numerical equality with a fresh transformer (follows from 'no state survives' only assuming deterministic float arithmetic). R1/R2 (per-call state in proj.NewTransform, constant index guard) are armed only once listed in the evidence's rule list.",
      None)
-prop("C11", False, "", "", "", NOT_YET)
-prop("C12", False, "", "", "", NOT_YET)
+prop("C11", True,
+     "path-sensitive AST dataflow with balance facts (root/height, size), placement/parent-link pairing rules, post-dominance of the upward envelope pass over the package call graph, purity summaries, abstract interpretation over the order domain for the box predicates",
+     "Guttman bookkeeping decided on every path: (R1) every root store outside the constructor is balanced by height++/-- on all paths and every node creation sets its level; (R2) every placement of an entry with a possibly non-nil child into a node is paired with child.parent = node (or the entry already belongs to that node; the adjustTree sibling is discharged by the caller-side fact that split() links it); (R3) every mutation of a node's entries under Insert/Delete is followed before return by the upward pass that stores recomputed envelopes; (R4) Insert is size+1 on every path, Delete returns true only after one removal and one size--, and false only on effect-free paths (purity of findLeaf over the package call graph); (R6) intersect/containsRect/containsPoint/enlarge/boundingBox equal their order-level specification for every weak ordering, the search visits every intersecting entry with no other filter, the envelope fold covers all entries.",
+     "Not decided: that split/condense keep all leaves at one depth for every history; multiplicity of results; quadratic-split heuristics; fan-out bound (R5 not armed). Field roles are discovered from Depth()/Size() and types, so renames do not matter.",
+     None)
+prop("C12", True,
+     "bound-derivation dataflow over the package (which values derive from MINDIST vs another point-to-box bound), k-dependence closure from the query's k parameter, shape rules for the leaf scans",
+     "Thin: (R1) below NearestNeighbors(k,p) no comparison that excludes a branch depends on a bound other than MINDIST unless it also depends on k (MINMAXDIST only promises one object); (R2) both leaf scans offer every entry's MINDIST from the query point and the entry's object to the accumulator over the full range, with the same bound function; (R3) the 1-NN exclusion by MINMAXDIST keeps entries whose MINDIST equals the bound.",
+     "Not decided: ordering/exactness of returned distances, the MINDIST-ordered descent, tie handling, insertNearest's slice arithmetic.",
+     None)
 prop("C13", True,
      "stutter-path detection (symbolic header-to-header paths + interval feasibility over len(x)), path-sensitive vetting dataflow, shape rules on the append sites, affine copy-loop analysis",
      "Structural necessary conditions: (R1) the curve simplifier has no loop path that changes nothing its conditions read and is feasible on the first iteration (definite non-termination, witness interval on len(curve)); (R2) output fresh, every appended vertex is an input vertex, input never written, first vertex kept first, exit flag raised only right after appending the last vertex and is the only way out; (R3) every kept vertex is the scan start, adjacent to the previous kept one, or its replacing segment was tested against kept output, remaining input and other curves; (R4) Multi* methods map member i to index i over the full range and Polygon passes all rings as obstacles.",
